@@ -1620,9 +1620,9 @@ Proof. repeat split; reflexivity. Qed.
    allocator's pool pointer becomes the source's; the model's OpCopy / OpMove / OpAssign do exactly that *)
 Theorem gen_handle_ops_refine st h hd hs :
   (forall st1 ob, step st (OpCopy h) = Ok (st1, ob) ->
-     Z.of_nat (hpool (handles st1 (nhandles st))) = Gen_PoolAllocatorHandles.CopyCtor 0%Z (Z.of_nat (hpool (handles st h)))) /\
+     Z.of_nat (hpool (handles st1 (nhandles st))) = Gen_PoolAllocatorHandles.CopyCtor 0%Z (Z.of_nat (hpool (handles st h))) 0%Z) /\
   (forall st1 ob, step st (OpMove h) = Ok (st1, ob) ->
-     Z.of_nat (hpool (handles st1 (nhandles st))) = Gen_PoolAllocatorHandles.CopyCtor 0%Z (Z.of_nat (hpool (handles st h)))) /\
+     Z.of_nat (hpool (handles st1 (nhandles st))) = Gen_PoolAllocatorHandles.CopyCtor 0%Z (Z.of_nat (hpool (handles st h))) 0%Z) /\
   (forall st1 ob, step st (OpAssign hd hs) = Ok (st1, ob) ->
      (tt, Z.of_nat (hpool (handles st1 hd))) = Gen_PoolAllocatorHandles.Assign (Z.of_nat (hpool (handles st hd))) (Z.of_nat (hpool (handles st hs)))).
 Proof.
@@ -1632,6 +1632,27 @@ Proof.
   - intros st1 ob E. simpl in E.
     destruct (release (acquire st (hpool (handles st hs))) (hpool (handles st hd))) as [[s1 fr]| | |]; try discriminate.
     inversion E; subst. unfold set_handle; proj. rewrite updn_same. reflexivity.
+Qed.
+
+(* the remaining constructors, GENERATED: the rebinding conversion (94-99) builds the new allocator from THIS allocator's
+   pool pointer (through the protected shared_ptr constructor, 163-166); the explicit constructor (76-79) points to the
+   object allocate_shared made from (base allocator, pvGetMemPoolParams(), MemManager(base allocator)).  The model's
+   OpRebind / OpNew do exactly that: same pool / a fresh pool with the value type's parameters and one owner.
+   (The destructor is `= default`: there is no code to translate; releasing the shared_ptr is library semantics.) *)
+Theorem gen_ctor_ops_refine st h vt :
+  (forall st1 ob, step st (OpRebind h vt) = Ok (st1, ob) ->
+     Z.of_nat (hpool (handles st1 (nhandles st))) =
+       Gen_PoolAllocatorHandles.SharedCtor 0%Z 0%Z (Gen_PoolAllocatorHandles.RebindConversion (Z.of_nat (hpool (handles st h))) 0%Z)) /\
+  (forall npo myP own src alloc, Gen_PoolAllocatorHandles.ExplicitCtor npo myP own src alloc = npo alloc myP alloc) /\
+  (forall st1 ob, step st (OpNew vt) = Ok (st1, ob) ->
+     hpool (handles st1 (nhandles st)) = npools st /\ npools st1 = S (npools st) /\
+     pools st1 (npools st) = mkPool (get_params vt) 0 1 0 true /\ cached st1 (npools st) = cached st (npools st)).
+Proof.
+  unfold Gen_PoolAllocatorHandles.SharedCtor, Gen_PoolAllocatorHandles.RebindConversion, Gen_PoolAllocatorHandles.ExplicitCtor.
+  split; [|split].
+  - intros st1 ob E. simpl in E. inversion E; subst. unfold push_handle; proj. rewrite updn_same. reflexivity.
+  - reflexivity.
+  - intros st1 ob E. simpl in E. inversion E; subst. unfold push_handle, push_pool; proj. rewrite !updn_same. repeat split; reflexivity.
 Qed.
 
 (* the pool object exists EXACTLY as long as some living allocator object points to it: it is destroyed when, and only
@@ -1653,6 +1674,82 @@ Proof.
     pose proof (sumn_ge (nhandles st') (fun k => owns p (handles st' k)) h Hh) as Gq. cbv beta in Gq.
     unfold owns at 1 in Gq. rewrite Ha, Hq, Nat.eqb_refl in Gq. simpl in Gq.
     destruct (Nat.eqb_spec (sumn (nhandles st') (fun h0 => owns p (handles st' h0))) 0); [lia | reflexivity].
+Qed.
+
+(* ------------------------------------------------------------------ round 8: the exact boundary of the known finding F1 *)
+(* a live block is WELL TAGGED when its tag tells the truth about the pool it came from (this is the block clause of
+   the invariant WITHOUT the H-dependent part "a raw block was a request with n <> 1"; inv implies it) *)
+Definition well_tagged (st : state) (B : block) : Prop :=
+  match btag B with
+  | Pooled q => q = pparams (pools st (bpool B)) /\ q = get_params (bvt B) /\ bn B = 1%Z
+  | RawMem s => s = (bn B * vsize (bvt B))%Z
+  end.
+
+Lemma inv_well_tagged st b : inv st -> b < nblocks st -> balive (blocks st b) = true -> well_tagged st (blocks st b).
+Proof.
+  intros I Hb Ha. destruct (i_blk _ I b Hb Ha) as [_ Ht]. unfold well_tagged.
+  destruct (btag (blocks st b)); [exact Ht | apply Ht].
+Qed.
+
+(* THE DANGER: the block is a single-object block that had to be taken from raw memory, and the pool NOW has the
+   parameters of its value type *)
+Definition raw_single_in_matching_pool (st : state) (h b : nat) (n : Z) : Prop :=
+  is_pooled (btag (blocks st b)) = false /\ n = 1%Z /\
+  params_eqb (get_params (hvt (handles st h))) (pparams (pools st (hpool (handles st h)))) = true.
+
+(* where the decision (= the GENERATED deallocate, C20_generated_deallocate_is_model_decision) sends a block *)
+Definition decided_tag (st : state) (h : nat) (n : Z) : tag :=
+  match dealloc_decision cfg (hvt (handles st h)) (pools st (hpool (handles st h))) n with
+  | DPool => Pooled (pparams (pools st (hpool (handles st h))))
+  | DRaw sz => RawMem sz
+  end.
+
+(* EXACT BOUNDARY (one deallocation): for a protocol-respecting deallocate of a well-tagged live block, the decision
+   returns the block to its origin IF AND ONLY IF it is not a raw single-object block meeting a pool that meanwhile has
+   its parameters.  So "no raw single-object block is ever deallocated while the pool has its parameters" is the
+   WEAKEST client hypothesis that excludes misrouting: any hypothesis that admits one such deallocation admits a
+   misrouted block. *)
+Theorem misroute_exact_boundary st h b n s :
+  proto_ok st (OpDealloc h b n s) = true -> well_tagged st (blocks st b) ->
+  (tag_eqb (btag (blocks st b)) (decided_tag st h n) = true <-> ~ raw_single_in_matching_pool st h b n).
+Proof.
+  intros P W. simpl in P. repeat rewrite andb_true_iff in P. destruct P as [[[[[_ _] _] Hbp] Hbv] Hbn].
+  apply Nat.eqb_eq in Hbp. apply vt_eqb_eq in Hbv. apply Z.eqb_eq in Hbn.
+  unfold well_tagged in W. unfold decided_tag, dealloc_decision, raw_single_in_matching_pool.
+  set (H := handles st h) in *. set (B := blocks st b) in *. set (P := pools st (hpool H)) in *.
+  destruct (btag B) as [q|sz] eqn:Et; cbn [is_pooled].
+  - destruct W as [W1 [W2 W3]]. rewrite Hbp in W1. fold P in W1. rewrite Hbv in W2.
+    rewrite <- Hbn, W3, <- W2, W1, params_eqb_refl. simpl. rewrite params_eqb_refl.
+    split; [intros _ [D _]; discriminate | reflexivity].
+  - rewrite Hbv, Hbn in W. destruct (Z.eqb_spec n 1) as [->|Hn]; cbn [andb].
+    + destruct (params_eqb (get_params (hvt H)) (pparams P)) eqn:Eq.
+      * simpl. split; [discriminate | intros N; exfalso; apply N; auto].
+      * simpl. rewrite W, Z.eqb_refl. split; [intros _ [_ [_ D]]; discriminate | reflexivity].
+    + simpl. rewrite W, Z.eqb_refl. split; [intros _ [_ [D _]]; contradiction | reflexivity].
+Qed.
+
+(* H (no_size_sharing, kept along the history) is SUFFICIENT: it keeps the invariant, under which no raw single-object
+   block exists at all, so the danger never arises *)
+Theorem H_excludes_the_danger st h b n s : inv st -> proto_ok st (OpDealloc h b n s) = true ->
+  ~ raw_single_in_matching_pool st h b n.
+Proof.
+  intros I P [Hr [Hn _]]. simpl in P. repeat rewrite andb_true_iff in P. destruct P as [[[[[_ Hb] Ha] _] _] Hbn].
+  apply Nat.ltb_lt in Hb. apply Z.eqb_eq in Hbn. destruct (i_blk _ I b Hb Ha) as [_ Ht].
+  destruct (btag (blocks st b)); [discriminate|]. destruct Ht as [_ Hne]. congruence.
+Qed.
+
+(* how a raw single-object block comes into existence: exactly when a single-object request meets a BUSY pool of other
+   parameters - i.e. exactly when H is violated at that request (decision = the GENERATED allocate) *)
+Theorem raw_single_created_iff vt P : forall sz,
+  alloc_decision cfg vt P 1 = ARaw sz <->
+  (params_eqb (get_params vt) (pparams P) = false /\ pcount P <> 0 /\ sz = (1 * vsize vt)%Z).
+Proof.
+  intros sz. unfold alloc_decision. simpl.
+  destruct (params_eqb (get_params vt) (pparams P)); cbn [negb andb].
+  - split; [discriminate | intros [D _]; discriminate].
+  - destruct (Nat.eqb_spec (pcount P) 0) as [E|E].
+    + split; [discriminate | intros [_ [N _]]; contradiction].
+    + split; [intros Q; inversion Q; auto | intros [_ [_ ->]]; reflexivity].
 Qed.
 
 End Proofs.
@@ -1729,6 +1826,23 @@ Proof.
   split; [apply (good_respects cfg_default _ _ false G1)|]. split; [|split; assumption].
   intros H. pose proof (respects_good cfg_default _ _ (good_respects cfg_default _ _ false G1) H) as G. congruence.
 Qed.
+
+(* H is NOT NECESSARY: two node sizes on one pool with H violated (a raw single-object block exists) but the raw block is
+   given back while the pool still has the other parameters - every deallocation is routed correctly.  (This is the pattern of
+   "clear both containers before the first one is refilled".) *)
+Definition benign_sharing_ops : list op :=
+  [ OpNew t24; OpRebind 0 t40;
+    OpAlloc 0 1 1;        (* b0 pooled (24) *)
+    OpAlloc 1 1 0;        (* b1 RAW 40: H violated here *)
+    OpDealloc 1 1 1 0;    (* b1 back while the pool is still (24,8): raw -> base allocator, correct *)
+    OpDealloc 0 0 1 0;
+    OpAlloc 1 1 1;        (* idle pool re-targeted to (40,8) *)
+    OpDealloc 1 2 1 0; OpDestroy 0; OpDestroy 1 ].
+Theorem H_not_necessary :
+  good cfg_default false init benign_sharing_ops = true /\ good cfg_default true init benign_sharing_ops = false /\
+  forallb (fun x => snd x) (routing benign_sharing_ops) = true /\ length (routing benign_sharing_ops) = 10 /\
+  match run cfg_default init benign_sharing_ops with Ok (st, _) => outstanding st | _ => 1 end = 0.
+Proof. vm_compute. repeat split; reflexivity. Qed.
 
 (* ------------------------------------------------------------------ non-vacuity *)
 (* a list-like and a hash-like container life: nodes singly, bucket arrays with n > 1, a copy with its
